@@ -13,6 +13,7 @@
 import datetime
 import decimal
 import logging
+import math
 import os
 import random
 import threading
@@ -708,16 +709,15 @@ def parse_iso(value):
             input_type = int
 
         if input_type == numpy.datetime64:
-            # this can create dates rather than datetimes, so don't return yet
-            value = value.astype(datetime.datetime)
-            input_type = type(value)
-            if input_type is int:
-                value /= 1000000000
+            # whole seconds since the epoch, whatever the unit (out of range values fail below)
+            value = int(value.astype("datetime64[s]").astype(numpy.int64))
+            input_type = int
 
         if input_type in (int, numpy.int64, float, numpy.float64):
-            return datetime.datetime.fromtimestamp(int(value), tz=datetime.timezone.utc).replace(
-                tzinfo=None
-            )
+            # floor, so that instants before 1970 are truncated to whole seconds like all others
+            return datetime.datetime.fromtimestamp(
+                math.floor(value), tz=datetime.timezone.utc
+            ).replace(tzinfo=None)
 
         if hasattr(value, "to_pydatetime"):
             return value.to_pydatetime()
